@@ -39,6 +39,31 @@ def _mat(rows):
 # ----------------------------------------------------------------------------------------------
 # building the implementation objects
 # ----------------------------------------------------------------------------------------------
+def _as_input(a, case, allow_tuple=False, which=None):
+    """deliver an array-valued input in the dtype / container the case asks for (same real numbers).
+    `Array2D` / `Kernel2D` document `Union[np.ndarray, List]` (tuples are rejected), so tuples are used only
+    where the API takes them (`Grid2DIrregular`: a list of (y,x) tuples)."""
+    dt, ct = case.get("dtype", "float"), case.get("container", "ndarray")
+    if which is not None and "dtypes" in case:
+        dt = case["dtypes"].get(which, "float")      # dtype chosen independently per input
+    a = np.asarray(a, dtype=float)
+    if dt in ("int", "pyint"):
+        ai = np.rint(a).astype(np.int64)
+        assert np.array_equal(ai, a), "integer-dtype case with non-integral values"
+        a = ai
+    elif dt == "float32":
+        a32 = a.astype(np.float32)
+        assert np.array_equal(a32.astype(float), a), "float32 case with values not representable"
+        a = a32
+    if dt == "pyint" or ct == "list":
+        return a.tolist()
+    if ct == "tuple" and not allow_tuple:
+        return a.tolist()
+    if ct == "tuple":
+        return [tuple(row) for row in a.tolist()]      # the documented "list of (y,x) tuples"
+    return a
+
+
 def build_dataset(aa, case):
     m = mask_from_json(case["mask"])
     h, w = m.shape
@@ -46,16 +71,16 @@ def build_dataset(aa, case):
     org = tuple(_f(v) for v in case.get("origin", ["0", "0"]))
     mask = aa.Mask2D(mask=m, pixel_scales=ps, origin=org)
     k = case["kernel"]
-    kern = _arr(k["vals"]).reshape(k["kh"], k["kw"])
+    kern = _as_input(_arr(k["vals"]).reshape(k["kh"], k["kw"]), case, which="kernel")
     psf = aa.Kernel2D.no_mask(values=kern, pixel_scales=ps)
-    dn = _arr(case["data"]).reshape(h, w)
-    nn = _arr(case["noise"]).reshape(h, w)
+    dn = _as_input(_arr(case["data"]).reshape(h, w), case, which="data")
+    nn = _as_input(_arr(case["noise"]).reshape(h, w), case, which="noise")
     if case.get("via", "apply_mask") == "direct":
         # masked structures handed to the constructor: the PSF is used exactly as given
         ds = aa.Imaging(data=aa.Array2D(values=dn, mask=mask), noise_map=aa.Array2D(values=nn, mask=mask),
                         psf=psf, use_normalized_psf=False)
     else:
-        # the usual route; `apply_mask` re-creates the dataset, which normalises the PSF to unit sum
+        # the usual route (`apply_mask` re-creates the dataset)
         data = aa.Array2D.no_mask(values=dn, pixel_scales=ps, origin=org)
         noise = aa.Array2D.no_mask(values=nn, pixel_scales=ps, origin=org)
         ds = aa.Imaging(data=data, noise_map=noise, psf=psf, use_normalized_psf=False)
@@ -88,8 +113,11 @@ def build_objects(aa, mask, ds, case):
         reg = aa.reg.Constant(coefficient=_f(o.get("coeff", "1"))) if o["reg"] else None
         if o["kind"] == "func":
             mm = _mat(o["matrix"])
+            # the mock hands the matrix to `convolve_matrix_jit` as is: ndarray, in the case's dtype
+            fdt = case.get("dtypes", {}).get("func", case.get("dtype", "float"))
+            mm_in = np.asarray(_as_input(mm, {"container": "ndarray", "dtype": "int" if fdt in ("int", "pyint") else fdt}))
             objs.append(MockLinearObjFuncList(parameters=mm.shape[1], grid=ds.grids.uniform,
-                                              mapping_matrix=mm, regularization=reg))
+                                              mapping_matrix=mm_in, regularization=reg))
             continue
         ovs, grid = source_grid(aa, mask, {**case, **({"sub": o["sub"]} if "sub" in o else {})})
         if o["kind"] == "rect":
@@ -97,7 +125,12 @@ def build_objects(aa, mask, ds, case):
             mg = mesh.mapper_grids_from(mask=mask, border_relocator=None, source_plane_data_grid=grid)
         else:
             mesh = aa.mesh.Delaunay()
-            pts = aa.Grid2DIrregular(values=[(_f(p[0]), _f(p[1])) for p in o["points"]])
+            pv = np.array([(_f(p[0]), _f(p[1])) for p in o["points"]])
+            if np.array_equal(np.rint(pv), pv):
+                pv = _as_input(pv, case, allow_tuple=True, which="points")   # integer-valued vertices
+            elif case.get("container") in ("list", "tuple"):
+                pv = _as_input(pv, {**case, "dtype": "float"}, allow_tuple=True)
+            pts = aa.Grid2DIrregular(values=pv)
             try:
                 mg = mesh.mapper_grids_from(mask=mask, border_relocator=None,
                                             source_plane_data_grid=grid, source_plane_mesh_grid=pts)
@@ -242,23 +275,36 @@ class C04(PropertyCheck):
     def _values(self, rng, mask, kshape, signed, sub=None, easy=False):
         h, w = len(mask), len(mask[0])
         kh, kw = kshape
+        # round-3 hardening: dtype and container of every array-valued input, constructor route
+        def pick():
+            return rng.choices(["float", "int", "pyint", "float32"], weights=[62, 20, 9, 9])[0]
+        # dtype chosen INDEPENDENTLY per array-valued input (an integer image with a fractional kernel, an
+        # integer mapping matrix with fractional noise, … are the combinations that expose dtype leaks)
+        dtypes = {"kernel": pick(), "data": pick(), "noise": pick(), "func": pick(), "points": pick()}
+        container = rng.choices(["ndarray", "list", "tuple"], weights=[70, 18, 12])[0]
+        ctor = rng.choices(["Inversion", "factory", "class", "interface"], weights=[55, 15, 15, 15])[0]
+        ints = dtypes["kernel"] in ("int", "pyint")
         kvals = []
         for _ in range(kh * kw):
-            v = F(rng.randint(0, 8), 8)
+            v = F(rng.randint(0, 4)) if ints else F(rng.randint(0, 8), 8)
             if signed and rng.random() < 0.4:
                 v = -v
             kvals.append(v)
         if all(v == 0 for v in kvals):
             kvals[(kh // 2) * kw + kw // 2] = F(1)
         if signed and all(v >= 0 for v in kvals):
-            kvals[0] = F(-1, 2)
+            kvals[0] = F(-1) if ints else F(-1, 2)
             if kh * kw > 1:
-                kvals[-1] = F(-1, 4)
+                kvals[-1] = F(-2) if ints else F(-1, 4)
         via = rng.choice(["direct", "apply_mask"])
-        if via == "apply_mask" and sum(kvals) == 0:
-            kvals[(kh // 2) * kw + kw // 2] += F(1, 2)
-        data = [gen.dyadic(rng, -4, 4, 2) for _ in range(h * w)]
-        noise = [rng.choice([F(1, 2), F(1), F(2), F(4), F(1, 4), F(3, 2)]) for _ in range(h * w)]
+        if dtypes["data"] in ("int", "pyint"):
+            data = [F(rng.randint(-8, 8)) for _ in range(h * w)]
+        else:
+            data = [gen.dyadic(rng, -4, 4, 2) for _ in range(h * w)]
+        if dtypes["noise"] in ("int", "pyint"):
+            noise = [rng.choice([F(1), F(2), F(4), F(1), F(3)]) for _ in range(h * w)]
+        else:
+            noise = [rng.choice([F(1, 2), F(1), F(2), F(4), F(1, 4), F(3, 2)]) for _ in range(h * w)]
         n = sum(1 for r in mask for b in r if not b)
         if sub is None:
             sub = rng.choice([1, 2, [rng.choice([1, 2, 3]) for _ in range(n)], [rng.choice([1, 2]) for _ in range(n)]])
@@ -266,9 +312,20 @@ class C04(PropertyCheck):
             "mask": mask_json(mask),
             "kernel": {"kh": kh, "kw": kw, "vals": qlist(kvals)},
             "data": qlist(data), "noise": qlist(noise), "sub": sub, "via": via,
+            "dtypes": dtypes, "container": container, "ctor": ctor,
         }
 
-    def _obj(self, rng, kind, n, signed_funcs=True):
+    def _objs(self, rng, kinds, n, c):
+        dt = c["dtypes"]
+        return [self._obj(rng, k, n, ints=dt["func"] in ("int", "pyint"),
+                          int_points=dt["points"] in ("int", "pyint")) for k in kinds]
+
+    def _eps(self, rng):
+        """the diagonal value: unset (config default), set-but-falsy 0.0, explicit default, others"""
+        return rng.choice([None, "0", q(F(1e-3)), q(F(1, 1024)), q(F(1, 4)), q(F(1, 64))])
+
+    def _obj(self, rng, kind, n, signed_funcs=True, ints=False, int_points=None):
+        int_points = ints if int_points is None else int_points
         reg = rng.random() < 0.7
         if kind == "R":
             return {"kind": "rect", "shape": [rng.randint(3, 4), rng.randint(3, 5)], "reg": reg,
@@ -277,12 +334,18 @@ class C04(PropertyCheck):
             k = rng.randint(4, 7)
             pts = set()
             while len(pts) < k:
-                pts.add((gen.dyadic(rng, -3, 3, 3), gen.dyadic(rng, -3, 3, 3)))
+                if int_points:  # integer-valued vertices (delivered as int64 / Python ints)
+                    pts.add((F(rng.randint(-4, 4)), F(rng.randint(-4, 4))))
+                else:
+                    pts.add((gen.dyadic(rng, -3, 3, 3), gen.dyadic(rng, -3, 3, 3)))
             return {"kind": "delaunay", "points": [[q(a), q(b)] for a, b in sorted(pts)], "reg": reg,
                     "coeff": q(rng.choice([F(1), F(1, 2)]))}
         p = rng.randint(1, 3)
         lo = -4 if signed_funcs else 0
-        mm = [[F(rng.randint(lo, 6), 4) for _ in range(p)] for _ in range(n)]
+        if ints:
+            mm = [[F(rng.randint(lo, 6)) for _ in range(p)] for _ in range(n)]
+        else:
+            mm = [[F(rng.randint(lo, 6), 4) for _ in range(p)] for _ in range(n)]
         return {"kind": "func", "matrix": qmat(mm), "reg": rng.random() < 0.25, "coeff": "1"}
 
     def _geometry(self, rng):
@@ -291,7 +354,7 @@ class C04(PropertyCheck):
             "origin": qlist(gen.origin_pair(rng)),
             "distort": qlist([gen.dyadic(rng, -2, 2, 2) or F(1), gen.dyadic(rng, -1, 1, 2),
                               gen.dyadic(rng, -1, 1, 2), gen.dyadic(rng, -2, 2, 2) or F(1, 2),
-                              gen.dyadic(rng, -1, 1, 3), gen.dyadic(rng, -1, 1, 3)]),
+                              gen.dyadic(rng, -1, 1, 3) or F(1, 8), gen.dyadic(rng, -1, 1, 3) or F(-1, 8)]),
         }
 
     @staticmethod
@@ -332,8 +395,8 @@ class C04(PropertyCheck):
                     for lst in ls:
                         c = self._values(rng, m, kshape, signed)
                         c.update(self._geometry(rng))
-                        c["objs"] = [self._obj(rng, k, n) for k in lst]
-                        c["eps"] = q(rng.choice([F(1, 1024), F(1, 4), F(1e-3)]))
+                        c["objs"] = self._objs(rng, lst, n, c)
+                        c["eps"] = self._eps(rng)
                         c["tag"] = f"enum_{''.join(lst)}_{kshape[0]}x{kshape[1]}_{'signed' if signed else 'nonneg'}"
                         yield c
         # 2. structured random
@@ -358,12 +421,12 @@ class C04(PropertyCheck):
             c = self._values(rng, m, kshape, signed)
             c.update(self._geometry(rng))
             k = rng.choice([1, 1, 2, 2, 3])
-            c["objs"] = [self._obj(rng, rng.choice(kinds), n) for _ in range(k)]
+            c["objs"] = self._objs(rng, [rng.choice(kinds) for _ in range(k)], n, c)
             if rng.random() < 0.3:   # per-mapper over-sampling sizes
                 for o in c["objs"]:
                     if o["kind"] != "func":
                         o["sub"] = rng.choice([1, 2, 3])
-            c["eps"] = q(rng.choice([F(1, 1024), F(1, 4), F(1e-3), F(1, 64)]))
+            c["eps"] = self._eps(rng)
             c["tag"] = f"rand_{kind}_{kshape[0]}x{kshape[1]}_{'signed' if signed else 'nonneg'}_{k}obj"
             yield c
             mappers = [o for o in c["objs"] if o["kind"] != "func"]
@@ -371,6 +434,32 @@ class C04(PropertyCheck):
                 # the util functions named by the property, on the same dataset and its first mapper
                 yield {**c, "kind": "utils", "objs": [mappers[0]],
                        "tag": f"utils_{kshape[0]}x{kshape[1]}_{'signed' if signed else 'nonneg'}_{mappers[0]['kind']}"}
+        # 2b. degenerate sizes (round-3 hardening): one unmasked pixel, 1xN / Nx1 / 1x1 frames, all-unmasked
+        #     masks (1x1 kernel), always with the footprint inside the frame; mappers use sub-size 2 so that
+        #     the source-plane grid is not a single point / a single line
+        degen = []
+        for kshape in ((1, 1), (1, 3), (3, 1), (3, 3), (3, 5)):
+            my, mx = kshape[0] // 2, kshape[1] // 2
+            wd, ht = 2 * mx + 1 + rng.randint(0, 2), 2 * my + 1 + rng.randint(0, 1)
+            m1 = [[True] * wd for _ in range(ht)]
+            m1[my][mx] = False                                   # exactly one unmasked pixel
+            degen.append((m1, kshape))
+        for wdt in (1, 2, 4):
+            degen.append(([[False] * wdt], (1, 1)))                # 1xN frame, all unmasked, 1x1 kernel
+            degen.append(([[False] for _ in range(wdt)], (1, 1)))  # Nx1 frame
+        degen.append(([[True, False, False, True, False, True]], (1, 3)))   # 1xN frame, (1,3) kernel
+        degen.append(([[True], [False], [False], [True]], (3, 1)))          # Nx1 frame, (3,1) kernel
+        degen.append(([[False, False, False], [False, False, False]], (1, 1)))   # all unmasked
+        for m, kshape in degen:
+            n = sum(1 for r in m for b in r if not b)
+            for lst in (("F",), ("R",), ("D", "F"), ("F", "R")) if tier == "quick" else \
+                    (("F",), ("R",), ("D",), ("D", "F"), ("F", "R"), ("R", "R")):
+                c = self._values(rng, m, kshape, rng.random() < 0.5, sub=2)
+                c.update(self._geometry(rng))
+                c["objs"] = self._objs(rng, lst, n, c)
+                c["eps"] = self._eps(rng)
+                c["tag"] = f"degen_{len(m)}x{len(m[0])}_n{n}_{kshape[0]}x{kshape[1]}_{''.join(lst)}"
+                yield c
         # 3. the mirroring routine alone, on sparse asymmetric matrices
         for _ in range(30 if tier == "quick" else 300):
             n = rng.randint(1, 6)
@@ -403,11 +492,16 @@ class C04(PropertyCheck):
                 t = mapper_tables(o)
                 t["has_reg"] = bool(spec["reg"])
                 tables.append(t)
-        eps = _f(case["eps"])
+        if case["eps"] is None:
+            from autoconf import conf
+            eps_setting = None       # "not set": the code falls back to the (pinned) config value
+            eps = float(conf.instance["general"]["inversion"]["no_regularization_add_to_curvature_diag_value"])
+        else:
+            eps_setting = eps = _f(case["eps"])     # includes the set-but-falsy 0.0 and the explicit default
         kern = np.asarray(ds.psf.native)
         if not np.all(np.isfinite(kern)):
             raise Skip("PSF normalisation of a zero-sum kernel")
-        obs = {"_tables": tables,
+        obs = {"_tables": tables, "_eps": q(eps),
                "_kernel": {"kh": int(kern.shape[0]), "kw": int(kern.shape[1]), "vals": qlist(kern.ravel())}}
         def matrices(inv):
             return {"operated_mapping_matrix": qmat(np.asarray(inv.operated_mapping_matrix)),
@@ -422,15 +516,35 @@ class C04(PropertyCheck):
             except Exception as e:
                 return {"reconstruction": _exc_kind(e)}
 
+        ctor = case.get("ctor", "Inversion")
+
+        def make(flag, settings):
+            """the same functionality through the public entry points named by the property"""
+            if ctor == "factory":
+                from autoarray.inversion.inversion.factory import inversion_imaging_from
+                return inversion_imaging_from(dataset=ds, linear_obj_list=objs, settings=settings)
+            if ctor == "interface":
+                di = aa.DatasetInterface(data=ds.data, noise_map=ds.noise_map, convolver=ds.convolver,
+                                         w_tilde=ds.w_tilde, grids=ds.grids)
+                return aa.Inversion(dataset=di, linear_obj_list=objs, settings=settings)
+            if ctor == "class":
+                from autoarray.inversion.inversion.imaging.mapping import InversionImagingMapping
+                from autoarray.inversion.inversion.imaging.w_tilde import InversionImagingWTilde
+                if flag and not all(sp["kind"] == "func" for sp in case["objs"]):
+                    return InversionImagingWTilde(dataset=ds, w_tilde=ds.w_tilde, linear_obj_list=objs,
+                                                  settings=settings)
+                return InversionImagingMapping(dataset=ds, linear_obj_list=objs, settings=settings)
+            return aa.Inversion(dataset=ds, linear_obj_list=objs, settings=settings)
+
         for flag, key in ((False, "mapping"), (True, "w_tilde")):
             settings = aa.SettingsInversion(use_w_tilde=flag, use_positive_only_solver=False,
-                                            no_regularization_add_to_curvature_diag_value=eps)
+                                            no_regularization_add_to_curvature_diag_value=eps_setting)
             # Two access histories per formalism (the quantities are cached properties and the solve adds
             # the regularization matrix to the curvature matrix, in place on some paths):
             #   first instance : matrices, solve, matrices AGAIN ("after")
             #   second instance: solve FIRST, then matrices ("solve_first")
             try:
-                inv = aa.Inversion(dataset=ds, linear_obj_list=objs, settings=settings)
+                inv = make(flag, settings)
                 o = {"formalism": {"InversionImagingMapping": "mapping",
                                    "InversionImagingWTilde": "w_tilde"}.get(type(inv).__name__, type(inv).__name__)}
                 o.update(matrices(inv))
@@ -443,7 +557,7 @@ class C04(PropertyCheck):
                 obs["_H"] = qmat(np.asarray(inv.regularization_matrix))
             o.update(solve(inv))
             o["after"] = matrices(inv)
-            inv2 = aa.Inversion(dataset=ds, linear_obj_list=objs, settings=settings)
+            inv2 = make(flag, settings)
             sf = solve(inv2)
             sf.update(matrices(inv2))
             o["solve_first"] = sf
@@ -522,7 +636,7 @@ class C04(PropertyCheck):
             return [{"op": "c04.mirrored", "matrix": case["matrix"]}]
         if "err" in impl_obs:
             return [{"op": "c04.inversion", "mask": case["mask"], "kernel": case["kernel"], "data": [],
-                     "noise": [], "objs": [], "eps": case["eps"], "use_w_tilde": False}]
+                     "noise": [], "objs": [], "eps": case["eps"] or "0", "use_w_tilde": False}]
         m = mask_from_json(case["mask"]).ravel()
         data = [v for v, mk in zip(case["data"], m) if not mk]
         noise = [v for v, mk in zip(case["noise"], m) if not mk]
@@ -532,7 +646,7 @@ class C04(PropertyCheck):
                      "impl_unique": impl_obs["_impl_unique"], "impl_preload": impl_obs["_impl_preload"],
                      "pix_pixels": impl_obs["_tables"][0]["pixels"]}]
         base = {"op": "c04.inversion", "mask": case["mask"], "kernel": impl_obs["_kernel"], "data": data,
-                "noise": noise, "objs": impl_obs["_tables"], "eps": case["eps"]}
+                "noise": noise, "objs": impl_obs["_tables"], "eps": impl_obs["_eps"]}
         if "_H" in impl_obs:
             base["reg_matrix"] = impl_obs["_H"]
         return [{**base, "use_w_tilde": False}, {**base, "use_w_tilde": True}]
@@ -728,7 +842,7 @@ class C04(PropertyCheck):
         B = np.hstack([P @ M for M in Ms])
         Dx = B.T @ (data / noise ** 2)
         Fx = (B / noise[:, None]).T @ (B / noise[:, None])
-        eps = _f(case["eps"])
+        eps = _f(obs["_eps"])
         for i in noreg:
             Fx[i, i] += eps
         H = _mat(obs["_H"]) if "_H" in obs else None
